@@ -1,5 +1,5 @@
 """C12 — recurrence queries agree with the listed sequence."""
-import datetime
+import datetime, sys
 import basecorr, rrlib
 from rrlib import q_wire, impl_query, py_query, ints, ilist
 
@@ -17,7 +17,9 @@ ASSUMPTIONS = [
     "ORIGINAL constructor arguments; the literal bysetpos=() is excluded from replace_nothing_id (stored as (), not recorded, rebuilt as None)",
     "datetimes are mapped to integers (seconds since 2020-01-01) order-isomorphically; comparison of datetimes is CPython's",
 ]
-RULE = ("rules: SECONDLY/MINUTELY/HOURLY/DAILY/WEEKLY with interval, byweekday and count 0..14, and rrulesets of them; "
+RULE = ("rules: SECONDLY/MINUTELY/HOURLY/DAILY/WEEKLY with interval, byweekday, bounded by COUNT 0..14, by UNTIL (at an occurrence, +-1 s, between "
+        "occurrences, at/before dtstart) or by COUNT+UNTIL, and rrulesets of them; every pool contains UNTIL, UNTIL+-1 s, dtstart, dtstart-1 s, both ends "
+        "of the sequence with their neighbours, index -1 and slices ending at the end; "
         "queries: every slice triple (a,b,c) in (-7..7 u None)^3 on lengths 0,1,5,10,12; every index in -n-2..n+2; "
         "instants = elements, +-1 s neighbours, far before/after; inc both ways; xafter counts None,-1..n+1; "
         "each on cache off / cache on fresh / cache on complete, and random query histories on one cached object. "
@@ -26,21 +28,46 @@ RULE = ("rules: SECONDLY/MINUTELY/HOURLY/DAILY/WEEKLY with interval, byweekday a
 MODES = ("off", "fresh", "complete")
 
 
+SPECIAL = {}       # family label -> instants that every query pool of that family must contain (UNTIL, UNTIL +- 1 s, dtstart, ...)
+
+
 def rule_family(ctx, rng, nrand):
-    """[(label, factory(cache)->rule)]"""
+    """[(label, factory(cache)->rule)]; count-bounded, UNTIL-bounded and COUNT+UNTIL rules, and sets of them"""
+    from dateutil import rrule as R
     fams = []
+
+    def add_rule(p, special=()):
+        label = "rrule %r" % sorted((k, str(v)) for k, v in p.items())
+        fams.append((label, (lambda p: lambda cache: rrlib.make_rule(p, cache))(p)))
+        SPECIAL[label] = list(special)
     for n in (0, 1, 2, 5, 9, 10, 11, 12):
         fams.append(("stepped n=%d" % n, (lambda n: lambda cache: rrlib.stepped(n, cache, step=3, start=0))(n)))
+    # UNTIL exactly at the last occurrence (inclusive), one second either side, at / before dtstart; and COUNT+UNTIL
+    for n in (1, 2, 5, 10, 11):
+        last = 3 * (n - 1)
+        for u in (last, last + 1, last - 1):
+            add_rule(dict(freq=R.SECONDLY, dtstart=rrlib.to_dt(0), interval=3, until=rrlib.to_dt(u)), [u, u - 1, u + 1, 0, -1, last])
+        add_rule(dict(freq=R.SECONDLY, dtstart=rrlib.to_dt(0), interval=3, until=rrlib.to_dt(last), count=n + 2), [last, last + 1, 0, -1])
+        add_rule(dict(freq=R.SECONDLY, dtstart=rrlib.to_dt(0), interval=3, until=rrlib.to_dt(last + 30), count=n), [last, last + 30, 0, -1])
+    add_rule(dict(freq=R.DAILY, dtstart=rrlib.to_dt(86400), until=rrlib.to_dt(86399)), [86400, 86399])          # UNTIL before DTSTART: empty
+    add_rule(dict(freq=R.DAILY, dtstart=rrlib.to_dt(86400), until=rrlib.to_dt(86400)), [86400, 86399, 86401])   # UNTIL = DTSTART: one
+    tu_th = dict(freq=R.WEEKLY, byweekday=(R.TU, R.TH), dtstart=rrlib.to_dt(36 * 86400 + 9 * 3600), until=rrlib.to_dt(59 * 86400 + 9 * 3600))
+    add_rule(tu_th, [59 * 86400 + 9 * 3600, 59 * 86400 + 9 * 3600 - 1, 59 * 86400 + 9 * 3600 + 1, 36 * 86400 + 9 * 3600, 36 * 86400 + 9 * 3600 - 1])
     for _ in range(nrand):
         p = rrlib.random_rule_params(rng)
-        fams.append(("rrule %r" % sorted((k, str(v)) for k, v in p.items()), (lambda p: lambda cache: rrlib.make_rule(p, cache))(p)))
+        add_rule(p)
+        for q, special in rrlib.until_variants(rng, p, 2):
+            add_rule(q, special)
     for _ in range(max(2, nrand // 3)):
         ps = [rrlib.random_rule_params(rng, 8) for _ in range(rng.randint(0, 2))]
+        special = []
+        if ps and rng.random() < 0.6:
+            q, special = rrlib.until_variants(rng, ps[0], 1)[0]
+            ps[0] = q
         ds = [rng.choice([0, 5, 3600, 86400, 90000, 7777]) for _ in range(rng.randint(0, 3))]
         xs = [rng.choice([0, 3600, 86400, 172800]) for _ in range(rng.randint(0, 2))]
 
         def mk(cache, ps=ps, ds=ds, xs=xs):
-            from dateutil import rrule as R
             s = R.rruleset(cache=cache)
             for p in ps:
                 s.rrule(rrlib.make_rule(p, False))
@@ -49,11 +76,13 @@ def rule_family(ctx, rng, nrand):
             for x in xs:
                 s.exdate(rrlib.to_dt(x))
             return s
-        fams.append(("rruleset %d rules %r dates %r exdates" % (len(ps), ds, xs), mk))
+        label = "rruleset %r rules %r dates %r exdates" % ([sorted((k, str(v)) for k, v in p.items()) for p in ps], ds, xs)
+        fams.append((label, mk))
+        SPECIAL[label] = list(special)
     return fams
 
 
-def query_pool(rng, L, full_slices):
+def query_pool(rng, L, full_slices, special=()):
     n = len(L)
     qs = [("all",), ("cnt",)]
     qs += [("idx", i) for i in range(-n - 2, n + 3)]
@@ -63,9 +92,19 @@ def query_pool(rng, L, full_slices):
     else:
         qs += [rrlib.random_query(rng, L) for _ in range(40)]
         qs += [("sl", a, b, c) for a in (None, 0, 2, -1) for b in (None, 0, 3, -2) for c in (None, 1, 2, -1, 0)]
+        qs += [("sl", a, None, c) for a in (-3, -1, n - 1, n) for c in (None, 1, 2)] + [("sl", a, n, None) for a in (0, -2, n - 1)]   # slices ending at the end
+    # bounds around sys.maxsize: itertools.islice rejects anything above it; __getitem__ clamps (fix a0cc6d1) — kept so that a revert is caught
+    B = 2 ** 63
+    qs += [("sl", 0, B, None), ("sl", B, None, None), ("sl", None, None, B), ("sl", 1, B - 1, None), ("sl", -1, B, None),
+           ("sl", 0, 2 * B, 2), ("sl", None, B, -1), ("idx", B), ("idx", -B)]
     pts = sorted(set(sum([[x - 1, x, x + 1] for x in L], [])) | {-10 ** 7, 10 ** 9})
-    if len(pts) > 14:
-        pts = sorted(rng.sample(pts, 14))
+    # always present: both ends of the sequence with their neighbours, and the family's special instants (UNTIL, dtstart, ...)
+    must = set(special)
+    if L:
+        must |= {L[0], L[0] - 1, L[-1], L[-1] - 1, L[-1] + 1}
+    if len(pts) > 12:
+        pts = rng.sample(pts, 12)
+    pts = sorted(set(pts) | must)
     for t in pts:
         for inc in (False, True):
             qs += [("in", t), ("bef", t, inc), ("aft", t, inc)]
@@ -74,6 +113,11 @@ def query_pool(rng, L, full_slices):
     for _ in range(30):
         a, b = rng.choice(pts), rng.choice(pts)
         qs.append(("btw", a, b, rng.random() < 0.5))
+    for b in sorted(must):
+        for inc in (False, True):
+            qs.append(("btw", -10 ** 7, b, inc))
+            if L:
+                qs.append(("btw", L[0], b, inc))
     return qs
 
 
@@ -100,7 +144,7 @@ def correspondence(ctx):
     for idx, (label, fac) in enumerate(fams):
         L = ints(list(fac(False)))
         full = label.startswith("stepped") and len(L) in ((1, 5, 10, 12) if ctx.tier == "thorough" or ctx.escalated else (1, 5, 12))
-        for q in query_pool(rng, L, full):
+        for q in query_pool(rng, L, full, SPECIAL.get(label, ())):
             for mode in MODES:
                 out, _ = run_mode(fac, mode, q)
                 op = "query.fast" if mode == "complete" else "query.gen"
@@ -133,7 +177,7 @@ def oracle(ctx):
     for label, fac in fams:
         L = ints(list(fac(False)))
         full = label.startswith("stepped") and len(L) in ((0, 1, 5, 10, 12) if ctx.tier == "thorough" or ctx.escalated else (0, 5, 10))
-        for q in query_pool(rng, L, full):
+        for q in query_pool(rng, L, full, SPECIAL.get(label, ())):
             want = py_query(L, q)
             for mode in MODES:
                 got, _ = run_mode(fac, mode, q)
